@@ -29,22 +29,22 @@ type MTCP struct {
 
 // MAlloc is an allocation in the reference model, built only from what the client saw on the wire.
 type MAlloc struct {
-	Client      int
-	User        string
-	Family      int // 1 IPv4, 2 IPv6
-	TCP         bool
-	Relay       *net.UDPAddr
-	RelaySock   *sim.UDPSock
-	RelayLis    *sim.Listener
-	Deadline    time.Time
-	CachedTx    [12]byte
-	CachedResp  map[uint16][]byte
-	Perms       map[string]time.Time
+	Client       int
+	User         string
+	Family       int // 1 IPv4, 2 IPv6
+	TCP          bool
+	Relay        *net.UDPAddr
+	RelaySock    *sim.UDPSock
+	RelayLis     *sim.Listener
+	Deadline     time.Time
+	CachedTx     [12]byte
+	CachedResp   map[uint16][]byte
+	Perms        map[string]time.Time
 	PermInstalls map[string]int
-	Chans       map[uint16]*MChan
-	TCPs        map[uint32]*MTCP
-	Refreshes   int
-	CreatedStep int
+	Chans        map[uint16]*MChan
+	TCPs         map[uint32]*MTCP
+	Refreshes    int
+	CreatedStep  int
 }
 
 // Model is M-server.
